@@ -72,6 +72,12 @@ def run_driver(exe, scenarios, threads, tag, timeout=300):
                 break
         results[rest[0]] = {"id": rest[0], "events": [{"ev": "Abort", "why": why, "report": san or err[-500:]}]}
         pending = rest[1:]
+        hangs += 1 if rc == "timeout" else 0
+        if hangs >= 3 and pending:
+            # enough evidence that scheduled work does not finish on this tree; the remaining scenarios are not run
+            for i in pending:
+                results[i] = {"id": i, "skipped": True, "events": []}
+            break
     for pth in (inp, outp):
         try:
             os.remove(pth)
@@ -158,6 +164,11 @@ def run(chk, replay=None):
             mine = [s for s in mine if not (s["kind"] in BURSTY and s["n"] > 1000)]
         t0 = time.time()
         res = run_driver(exe, mine, threads, "c02-%s-%d" % (backend, threads))
+        nskip = sum(1 for i in range(len(mine)) if res.get(i, {}).get("skipped"))
+        if nskip:
+            chk.note("%s T=%d: %d scenarios were not executed after 3 scenarios hung" % (backend, threads, nskip))
+            mine = [s for i, s in enumerate(mine) if not res[i].get("skipped")]
+            res = dict(enumerate(r for _, r in sorted(res.items()) if not r.get("skipped")))
         for kind, module in (("task", "TasksTrace"), ("burst", "ParallelForTrace")):
             idx = [i for i, s in enumerate(mine) if (s["kind"] in BURSTY) == (kind == "burst")]
             execs = [res[i]["events"] for i in idx]
